@@ -15,7 +15,7 @@ func init() {
 	var regs []vc.Registration
 	p := &Plan{
 		ID:       "C06",
-		Patterns: []string{"./internal/ircserver"},
+		Patterns: []string{"."},
 		Assumptions: []string{
 			"lines from an authenticated services link are protocol-conforming: the shapes assumed are the requires clauses labelled conforming* of the server_ handlers",
 			"single writer: entries are applied one after another (raft FSM)",
@@ -27,12 +27,16 @@ func init() {
 		if err != nil {
 			return err
 		}
-		opts := vc.UnitOpts{NoPanic: true, Post: true, Frame: false}
+		opts := vc.UnitOpts{NoPanic: true, Post: true, Frame: true}
 		p.Units = nil
 		p.Units = append(p.Units, UnitPlan{"ircserver.IRCServer.ProcessMessage", opts})
 		for _, h := range handlerNames(regs) {
 			p.Units = append(p.Units, UnitPlan{h, opts})
 		}
+		p.Units = append(p.Units, UnitPlan{"main.FSM.applyRobustMessage", opts}, UnitPlan{"main.sendMessages", opts}, UnitPlan{"ircserver.IRCServer.maybeLogin", opts},
+			UnitPlan{"ircserver.init", opts}, UnitPlan{"ircserver.extractPassword", opts}, UnitPlan{"ircserver.IRCServer.generateCaptchaURL", opts}, UnitPlan{"ircserver.IRCServer.verifyCaptcha", opts},
+			UnitPlan{"ircserver.ban", opts}, UnitPlan{"ircserver.banBoth", opts}, UnitPlan{"ircserver.normalizeModes", opts}, UnitPlan{"ircserver.modeCmds.IRCParams", opts},
+			UnitPlan{"ircserver.IRCServer.resolveSessionToRemoteAddrLocked", opts}, UnitPlan{"ircserver.NickToLower", opts}, UnitPlan{"ircserver.ChanToLower", opts})
 		for _, h := range ircHelpers {
 			p.Units = append(p.Units, UnitPlan{h, vc.UnitOpts{NoPanic: true, Post: true, Frame: true}})
 		}
